@@ -431,10 +431,100 @@ func c20(c *Ctx) {
 	}
 }
 
+// globalHeldFields: reference-typed fields (map / slice / pointer) that are somewhere assigned a value
+// derived from a package-level variable: objects reachable through them are shared between all instances.
+func (c *Ctx) globalHeldFields(tb *ir.TB) map[string]string {
+	if c.globalHeld != nil {
+		return c.globalHeld
+	}
+	c.globalHeld = map[string]string{}
+	for _, fn := range c.P.Funcs {
+		if load_FuncPkgPath(fn) == PkgUI {
+			continue
+		}
+		Instrs(fn, func(ins ssa.Instruction) {
+			st, ok := ins.(*ssa.Store)
+			if !ok {
+				return
+			}
+			fa, ok := st.Addr.(*ssa.FieldAddr)
+			if !ok {
+				return
+			}
+			switch st.Val.Type().Underlying().(type) {
+			case *types.Map, *types.Slice, *types.Pointer:
+			default:
+				return
+			}
+			o, f, ok := ir.FieldName(fa)
+			if !ok || o == nil || o.Obj().Pkg() == nil || !strings.HasPrefix(o.Obj().Pkg().Path(), M) {
+				return
+			}
+			t := tb.Of(st.Val, nil)
+			if g := t.Find(func(x *ir.Term) bool {
+				return strings.HasPrefix(x.Op, "global:"+M) && !strings.Contains(x.Op, "configuration.CurrentConfig")
+			}); g != nil && (t.Op == g.Op || t.Op == "load" || t.Op == "phi" || strings.HasPrefix(t.Op, "field:")) {
+				c.globalHeld[o.Obj().Name()+"."+f] = g.Op
+			}
+		})
+	}
+	return c.globalHeld
+}
+
+// paramAlias resolves a map-typed parameter to the (owner, field) of the argument at the static call sites of fn.
+func (c *Ctx) paramAlias(p *ssa.Parameter) (*types.Named, string, bool) {
+	fn := p.Parent()
+	idx := -1
+	for i, q := range fn.Params {
+		if q == p {
+			idx = i
+		}
+	}
+	if idx < 0 {
+		return nil, "", false
+	}
+	for _, caller := range c.P.Funcs {
+		var o *types.Named
+		var f string
+		found := false
+		Calls(caller, func(cc ssa.CallInstruction) {
+			match := ir.Callee(cc).Static == fn
+			ai := idx
+			if !match && cc.Common().IsInvoke() && cc.Common().Method.Name() == fn.Name() {
+				match = true
+				ai = idx - 1 // the receiver is not in Args of an invoke
+			}
+			if !match || ai < 0 || ai >= len(cc.Common().Args) {
+				return
+			}
+			if oo, ff, ok := ownerField(ir.Resolve(cc.Common().Args[ai])); ok {
+				o, f, found = oo, ff, true
+			}
+		})
+		if found {
+			return o, f, true
+		}
+	}
+	return nil, "", false
+}
+
 // collectAccesses classifies one instruction.
 func (c *Ctx) collectAccesses(fn *ssa.Function, ins ssa.Instruction, must uint64, tb *ir.TB, add func(access)) {
 	mk := func(owner *types.Named, field string, write bool, suffix string) access {
-		return access{key: owner.Obj().Name() + "." + field + suffix, owner: c.category(owner, c.curveReachCache(), fn), write: write, locks: must, fn: fn, pos: ins.Pos()}
+		a := access{key: owner.Obj().Name() + "." + field + suffix, owner: c.category(owner, c.curveReachCache(), fn), write: write, locks: must, fn: fn, pos: ins.Pos()}
+		if _, shared := c.globalHeldFields(tb)[owner.Obj().Name()+"."+field]; shared && suffix == "[]" {
+			a.owner = "global" // the object behind this field may be a package-level one shared by all instances
+		}
+		return a
+	}
+	mapOwner := func(v ssa.Value) (*types.Named, string, bool) {
+		if o, f, ok := ownerField(v); ok {
+			return o, f, true
+		}
+		if p, ok := ir.Resolve(v).(*ssa.Parameter); ok {
+			return c.paramAlias(p)
+		}
+		return nil, "", false
 	}
 	repoType := func(n *types.Named) bool {
 		return n != nil && n.Obj().Pkg() != nil && strings.HasPrefix(n.Obj().Pkg().Path(), M) && n.Obj().Pkg().Path() != PkgUI
@@ -486,18 +576,18 @@ func (c *Ctx) collectAccesses(fn *ssa.Function, ins ssa.Instruction, must uint64
 			}
 		}
 	case *ssa.MapUpdate:
-		if o, f, ok := ownerField(x.Map); ok && repoType(o) {
+		if o, f, ok := mapOwner(x.Map); ok && repoType(o) {
 			add(mk(o, f, true, "[]"))
 		}
 	case *ssa.Lookup:
 		if _, isMap := x.X.Type().Underlying().(*types.Map); isMap {
-			if o, f, ok := ownerField(x.X); ok && repoType(o) {
+			if o, f, ok := mapOwner(x.X); ok && repoType(o) {
 				add(mk(o, f, false, "[]"))
 			}
 		}
 	case *ssa.Range:
 		if _, isMap := x.X.Type().Underlying().(*types.Map); isMap {
-			if o, f, ok := ownerField(x.X); ok && repoType(o) {
+			if o, f, ok := mapOwner(x.X); ok && repoType(o) {
 				a := mk(o, f, false, "[]")
 				a.mapIter = true
 				add(a)
